@@ -7,10 +7,11 @@
 (* table and the five laws are evaluated against the dynamic parent chain.                 *)
 EXTENDS GlomTrace
 
-CONSTANTS MaxDepth, SecondDepth, MaxLeaves
+CONSTANTS MaxDepth, SecondDepth, MaxLeaves,
+          Rich      \* TRUE: all leaf / composite kinds; FALSE: the core kinds only (used for the deeper universe)
 
-Leafs == {N("new", "", <<>>), N("same", "", <<>>), N("copy", "", <<>>), N("smiss", "", <<>>)}
-Bin == {"tup", "pipe", "dict", "coal", "coalskip", "or", "and", "switch"}
+Leafs == {N("new", "", <<>>), N("same", "", <<>>)} \cup (IF Rich THEN {N("copy", "", <<>>), N("smiss", "", <<>>)} ELSE {})
+Bin == {"tup", "pipe", "dict", "coal", "or", "and", "switch"} \cup (IF Rich THEN {"coalskip"} ELSE {})
 RECURSIVE Trees(_)
 Trees(d) ==
   IF d = 0 THEN Leafs
